@@ -172,6 +172,18 @@ def check(chk):
         a = c.args[1] if len(c.args) > 1 else None
         ok = a is not None and "self.data" in src(a)
         chk.ob("DEAD-4", "the flush writes the live data", ok, t.where(c), detail=src(a), construct=t.ident, text="flush data " + src(a))
+        # nothing but "dirty" decides the flush: a busy file manager is waited for, never a reason to skip the last write
+        from sa.cfg import canon_set, canon_fact
+        from sa.helpers import positive
+        gs = positive(set(canon_set(g)))
+        loop_g = positive(set(canon_set(cfg.guards_at([h for h in cfg.nodes if h.kind == "join" and h.ast is loop][0].id)))) if [h for h in cfg.nodes if h.kind == "join" and h.ast is loop] else set()
+        extra = {x for x in gs - loop_g if x not in positive({canon_fact("self._dirty.is_set()", True), canon_fact("FileManager.is_busy", False),
+                                                                  canon_fact("self.machine.thread_stopper.is_set()", True)})}
+        busy_wait = [x for st in after for x in ast.walk(st) if isinstance(x, ast.While) and "is_busy" in src(x.test)]
+        skip_if_busy = canon_fact("FileManager.is_busy", False) in gs and not busy_wait
+        chk.ob("DEAD-4", "the shutdown flush happens whenever data is dirty: a busy file manager is waited for, not a reason to skip it", not extra and not skip_if_busy,
+               t.where(c), detail="guards %s; busy wait loops after the main loop: %d" % (sorted(gs - loop_g), len(busy_wait)), construct=t.ident,
+               text="shutdown flush conditional")
     sa = repo.func(DM, "DataManager.save_all")
     calls = [call_attr(c) for c in sa.calls()]
     st_ = [x for x in walk_local(sa.node) if isinstance(x, ast.Assign) and src(x.targets[0]) == "self.data"]
@@ -292,6 +304,36 @@ def check(chk):
         isinstance(exp[0].ast.value.op, ast.Add)
     chk.ob("FLOW-6", "every set restarts the expiry period: expiry = now + expire_secs", ok, sm.where(), construct=sm.ident, text="expiry restart")
 
+    # one clock for expiry: every deadline is wall-clock now + expire_secs, and the loader is handed the wall clock to compare with
+    WALL = "self.machine.clock.get_datetime().timestamp()"
+    n_dl = 0
+    mvc = repo.cls(MV, "MachineVariables")
+    for m in mvc.methods.values():
+        for x in walk_local(m.node):
+            if isinstance(x, ast.BinOp) and isinstance(x.op, ast.Add):
+                sides = [src(x.left), src(x.right)]
+                es = [i for i, t_ in enumerate(sides) if "expire_secs" in t_]
+                if len(es) != 1:
+                    continue
+                n_dl += 1
+                chk.analysed(m)
+                other = sides[1 - es[0]]
+                chk.ob("FLOW-6", "an expiry deadline is expire_secs after the wall clock's now (MachineVariables.%s)" % m.name, other == WALL, m.where(x),
+                       detail="deadline = %s" % src(x), construct=m.ident, text="expiry deadline clock in " + m.name)
+    chk.ob("FLOW-6", "expiry deadlines examined (%d)" % n_dl, n_dl >= 2, MV + ":1", nontrivial=False)
+    lv = [u for u in idx.uses("load_machine_vars") if u.call is not None and "/tests/" not in u.relpath]
+    for u in lv:
+        a = u.call.args[1] if len(u.call.args) > 1 else kwarg(u.call, "current_time")
+        text = src(a) if a is not None else ""
+        if isinstance(a, ast.Name) and u.func is not None:      # one local in between
+            d = [x for x in walk_local(u.func.node) if isinstance(x, ast.Assign) and src(x.targets[0]) == a.id]
+            if len(d) == 1:
+                text = src(d[0].value)
+        ok = text.endswith("clock.get_datetime().timestamp()")
+        chk.ob("FLOW-6", "the loader compares the stored deadlines with the wall clock", ok, "%s:%d" % (u.relpath, u.node.lineno), detail=src(a) if a is not None else "",
+               construct=u.func.ident if u.func is not None else u.relpath, text="loader clock")
+    chk.ob("FLOW-6", "loader call sites examined", len(lv) >= 1, MV + ":1", nontrivial=False)
+
     # ------------------------------------------------------------ OWN-16
     n_s = 0
     for u in idx.uses("save"):
@@ -332,6 +374,8 @@ def battery():
         M("writer uses the platform default encoding", YI, "with open(filename, 'w', encoding='utf8') as output_file:", "with open(filename, 'w', newline='\\n') as output_file:", "TABLE-6"),
         M("writers told to stop before the shutdown handlers ran", "mpf/core/machine.py", "        self.is_shutting_down = True\n        self.log.info(\"Shutting down...\")", "        self.is_shutting_down = True\n        self.thread_stopper.set()\n        self.log.info(\"Shutting down...\")", "PAIR-18"),
         M("machine shut down before the shutdown handlers ran", "mpf/core/machine.py", "        self.events.process_event_queue()\n        self.shutdown()", "        self.shutdown()\n        self.events.process_event_queue()", "PAIR-18"),
+        M("shutdown flush skipped while another manager writes", DM, "        if self._dirty.is_set():\n            while FileManager.is_busy:\n                time.sleep(0.2)\n            self._dirty.clear()\n            FileManager.save(self.filename, copy.deepcopy(self.data))", "        if self._dirty.is_set() and not FileManager.is_busy:\n            self._dirty.clear()\n            FileManager.save(self.filename, copy.deepcopy(self.data))", "DEAD-4"),
+        M("configure_machine_var deadline from the loop clock", MV, "timeout = expire_secs + self.machine.clock.get_datetime().timestamp() if expire_secs else None", "timeout = expire_secs + self.machine.clock.get_time() if expire_secs else None", "FLOW-6"),
     ]
 
 
